@@ -311,6 +311,7 @@ def explore(h, known=None, collect_validation=2, profile_root=None):
     t_start = time.time()
     first = True
     prev_w = None
+    str_cands = 0
     while work:
         if res.paths >= h.max_paths or time.time() - t_start > h.max_seconds:
             res.budget_exhausted = True
@@ -480,14 +481,21 @@ def explore(h, known=None, collect_validation=2, profile_root=None):
                 else:
                     res.pin_chains_cut += 1
                 continue
+            if kind == "pin-bytes":
+                if len(extra) < 16:
+                    work.append((pc[:i], extra + [neg], i))
+                else:
+                    res.pin_chains_cut += 1
+                continue
             if kind == "pin-str":
                 # concretised strings: sampled, with a longer exclusion chain than numbers (no boundary values to try)
                 if len(extra) < 16:
                     work.append((pc[:i], extra + [neg], i))
                 else:
                     res.pin_chains_cut += 1
-                if not extra:
+                if not extra and str_cands < 90:
                     for cand in _string_candidates(t):
+                        str_cands += 1
                         work.append((pc[:i], [cand], i))
                 continue
             if kind == "pin":
